@@ -4,7 +4,6 @@ package main
 // records one ndjson line per run-loop iteration (from the verif hook in vm.Run) and per engine call.
 
 import (
-	"reflect"
 	"bytes"
 	"context"
 	"encoding/hex"
@@ -12,6 +11,7 @@ import (
 	"fmt"
 	"math/rand"
 	"os"
+	"reflect"
 	"regexp"
 	"sort"
 	"strings"
@@ -301,17 +301,17 @@ type instrEvent struct {
 }
 
 type sessRec struct {
-	prog  *Program
-	sid   string
-	req   int
-	seq   int
-	ext   []extEntry
-	prev  *viseSnap
+	prog      *Program
+	sid       string
+	req       int
+	seq       int
+	ext       []extEntry
+	prev      *viseSnap
 	prevPhase string
-	buf   []*instrEvent
-	vmp   *vm.Vm
-	out   *ndw
-	stats *viseStats
+	buf       []*instrEvent
+	vmp       *vm.Vm
+	out       *ndw
+	stats     *viseStats
 }
 
 type viseStats struct {
@@ -392,12 +392,12 @@ type reqEvent struct {
 	Input    string     `json:"input"`
 	Incls    string     `json:"incls"` // ok | bad (fails the input pattern) | long (> 255 bytes)
 	Pre      viseSnap   `json:"pre"`
-	Post     viseSnap   `json:"post"`  // after Exec
+	Post     viseSnap   `json:"post"` // after Exec
 	Cont     bool       `json:"cont"`
 	Err      bool       `json:"err"`
 	Panic    string     `json:"panic"`
 	Niter    int        `json:"niter"`
-	Ext      []extEntry `json:"ext"`   // all resource interactions of Exec, in order
+	Ext      []extEntry `json:"ext"` // all resource interactions of Exec, in order
 	Flushed  bool       `json:"flushed"`
 	Out      string     `json:"out"`
 	Outlen   int        `json:"outlen"`
@@ -410,8 +410,8 @@ type reqEvent struct {
 	HaveSave bool       `json:"havesave"`
 	Outsize  int        `json:"outsize"`
 	Outerr   errpRec    `json:"outerr"` // error prefix found on the first line of the output
-	Picks    []int      `json:"picks"` // alternative chosen by each external call of this request, in call order
-	Cfg      EngineOpts `json:"cfg"`   // engine options in force
+	Picks    []int      `json:"picks"`  // alternative chosen by each external call of this request, in call order
+	Cfg      EngineOpts `json:"cfg"`    // engine options in force
 	Nfirst   int        `json:"nfirst"` // iterations of the pre-VM check (not counted in niter)
 	Initd    bool       `json:"initd"`  // the engine object is initialised after Exec (Finish saves the session only then)
 	Exit     vtok       `json:"exit"`   // the value the engine set aside to append to the output (read from the engine object)
@@ -1021,7 +1021,7 @@ type history struct {
 	Inputs []string `json:"inputs"`
 	Picks  [][]int  `json:"picks"` // per request: alternative index (0-based) of each external call, in call order
 	Mode   string   `json:"mode"`
-	Tail   bool     `json:"tail"` // record only the last request (every prefix is itself a history)
+	Tail   bool     `json:"tail"`  // record only the last request (every prefix is itself a history)
 	Delay  int      `json:"delay"` // kept-persister pairs: requests of the partner session served before this session's first one
 }
 
